@@ -148,6 +148,35 @@ def leaf_case(ctx, rng, idx):
                                                 layout),
                       {'chi': val, 'reference': ref, 'parameters': arr,
                        'observations': obs}, feats)
+    # ---------------- caller-owned buffers overwritten in place between
+    # evaluations (parameters and individual parameters)
+    if kind in 'GLT' and layout == 'flat' and not obs1d:
+        wp = np.array(arr, dtype=float)
+        wo = np.array(obs, dtype=float)
+        try:
+            model.compute_log_likelihood(wp, wo)
+            for rep in range(2):
+                theta2 = theta * (1 + 0.03 * rng.random(len(theta)))
+                arr2, th2 = _layout(theta2, leaf, n_ids, 'flat', rng)
+                wp[:] = arr2
+                wo *= 1 + 0.02 * rng.random(wo.shape)
+                ref2 = float(np.real(leaf.logp(th2, wo)))
+                v2 = model.compute_log_likelihood(wp, wo)
+                s2 = model.compute_sensitivities(wp, wo)[0]
+                ctx.count('reused_buffer_evaluations')
+                if not (ctx.close(v2, ref2, rtol=1e-10, scale=abs(ref2) + 1)
+                        and ctx.close(s2, ref2, rtol=1e-10,
+                                      scale=abs(ref2) + 1)):
+                    ctx.violation('value_vs_documented_density',
+                                  'reused_buffers:' + code.rstrip(
+                                      '0123456789'),
+                                  {'chi': v2, 's1': s2, 'reference': ref2,
+                                   'evaluation': rep + 2}, feats)
+                    break
+        except Exception as e:      # noqa
+            ctx.violation_exc('evaluation_raises', e,
+                              {'case': feats, 'call': 'reused buffers'},
+                              feats)
     # ---------------- layout invariance (same numbers, other layouts)
     if layout in ('matrix', 'tensor'):
         try:
